@@ -28,9 +28,18 @@ type HashPair struct {
 // ByName implements sort.Interface for []HashPair based on the Key field.
 type ByName []HashPair
 
-func (a ByName) Len() int           { return len(a) }
-func (a ByName) Swap(i, j int)      { a[i], a[j] = a[j], a[i] }
-func (a ByName) Less(i, j int) bool { return a[i].Key.Inspect() < a[j].Key.Inspect() }
+func (a ByName) Len() int      { return len(a) }
+func (a ByName) Swap(i, j int) { a[i], a[j] = a[j], a[i] }
+func (a ByName) Less(i, j int) bool {
+	ki, kj := a[i].Key.Inspect(), a[j].Key.Inspect()
+	if ki != kj {
+		return ki < kj
+	}
+
+	// Keys of different types may print alike (1 and "1"),
+	// their types give them a fixed order too.
+	return a[i].Key.Type() < a[j].Key.Type()
+}
 
 // Hash wrap map[HashKey]HashPair and implements Object interface.
 type Hash struct {
